@@ -1,14 +1,549 @@
-"""Herbrand terms (global value numbering) -- see DESIGN §3.5.  Stub until engine L3 is armed."""
+"""Herbrand terms with a fixed normalising rewrite system (engine L3: global value numbering).
+
+A term is an interned tuple.  Two computations are *Herbrand-equal* when they build the same term object.
+Normal forms applied at construction (each is a bit-vector / ring identity):
+
+  * bit-slices: every term is either an atom or a concatenation `cat` of slices of atoms and constants
+    (LSB first).  zext / trunc / byte extraction / from_xx_bytes / to_xx_bytes / bswap / constant shifts /
+    masks with constant runs / constant rotations are slice manipulations; OR / XOR / ADD of operands with
+    disjoint support is concatenation; slicing distributes over bitwise operators and (for low bits) over
+    + - *.
+  * XOR is flattened, sorted, pairs cancel, constants fold.
+  * + and - over one width are kept as a linear form  c + sum k_i * t_i  (mod 2^w).
+  * !!x = x ; rotr(rotl(x, r), r) = x for identical amount terms, rotation amounts are taken modulo the width.
+  * comparisons of identical terms fold.
+"""
 ENABLED = False
+INVERSES = {}     # opaque function name -> name of its declared inverse (same first argument)
+
+_tab = {}
+_serial = {}
+
+
+def _shallow(t):
+    """hash-consing key that does not recurse into (already interned) sub-terms"""
+    k = t[0]
+    if k in ('c', 's'):
+        return t
+    if k == 'cat':
+        return ('cat', t[1], tuple((id(a), lo, ln) for (a, lo, ln) in t[2]))
+    if k == 'lin':
+        return ('lin', t[1], t[2], tuple((id(a), c) for (a, c) in t[3]))
+    return (k, t[1]) + tuple(id(a) if isinstance(a, tuple) else a for a in t[2:])
+
+
+def _i(t):
+    key = _shallow(t)
+    r = _tab.get(key)
+    if r is None:
+        _tab[key] = t
+        _serial[id(t)] = len(_serial)
+        return t
+    return r
+
+
+def reset():
+    _tab.clear()
+    _serial.clear()
+    _smemo.clear()
+
+
+def M(w):
+    return (1 << w) - 1
 
 
 def const(w, v):
-    return None
+    return _i(('c', w, v & M(w)))
 
 
 def sym(name, w):
-    return None
+    if name is None:
+        return None
+    return _i(('s', name, w))
+
+
+def width(t):
+    return t[1] if t[0] != 's' else t[2]
+
+
+def is_const(t):
+    return t[0] == 'c'
+
+
+# ------------------------------------------------------------------ cat / slice
+def _parts(t):
+    """parts (atom, lo, len) LSB first"""
+    if t[0] == 'cat':
+        return t[2]
+    return ((t, 0, width(t)),)
+
+
+def _mkcat(w, parts):
+    """normalise a list of parts into a term of width w"""
+    out = []
+    for (a, lo, ln) in parts:
+        if ln == 0:
+            continue
+        if a[0] == 'c':
+            a = const(ln, a[2] >> lo)
+            lo = 0
+        if out:
+            (pa, plo, pln) = out[-1]
+            if pa[0] == 'c' and a[0] == 'c':
+                out[-1] = (const(pln + ln, pa[2] | (a[2] << pln)), 0, pln + ln)
+                continue
+            if pa is a and plo + pln == lo:
+                out[-1] = (pa, plo, pln + ln)
+                continue
+        out.append((a, lo, ln))
+    assert sum(p[2] for p in out) == w, (w, out)
+    if len(out) == 1:
+        a, lo, ln = out[0]
+        if a[0] == 'c':
+            return a
+        if lo == 0 and ln == width(a):
+            return a
+    return _i(('cat', w, tuple(out)))
+
+
+BITWISE = ('BitXor', 'BitAnd', 'BitOr', 'Not')
+
+
+_smemo = {}
+
+
+def slice_(t, lo, ln):
+    """bits [lo, lo+ln) of t (memoised)"""
+    k = (id(t), lo, ln)
+    r = _smemo.get(k)
+    if r is None:
+        r = _slice(t, lo, ln)
+        _smemo[k] = r
+    return r
+
+
+def _slice(t, lo, ln):
+    w = width(t)
+    assert 0 <= lo and lo + ln <= w, (lo, ln, w)
+    if lo == 0 and ln == w:
+        return t
+    if t[0] == 'c':
+        return const(ln, t[2] >> lo)
+    if t[0] == 'cat':
+        out = []
+        pos = 0
+        for (a, alo, aln) in t[2]:
+            s = max(lo, pos)
+            e = min(lo + ln, pos + aln)
+            if s < e:
+                out.append((a, alo + (s - pos), e - s))
+            pos += aln
+        return _mkcat(ln, out)
+    # slices are NOT distributed over operators: an operator node is an atom of the slice normal form, so that
+    # bytes written out and read back (to_xx_bytes / from_xx_bytes) re-assemble to the identical term
+    if t[0] == 'zext':
+        inner = t[2]
+        iw = width(inner)
+        if lo + ln <= iw:
+            return slice_(inner, lo, ln)
+        if lo >= iw:
+            return const(ln, 0)
+        return _mkcat(ln, [(slice_(inner, lo, iw - lo), 0, iw - lo), (const(lo + ln - iw, 0), 0, lo + ln - iw)])
+    return _mkcat(ln, [(t, lo, ln)])
+
+
+def cat(w, ts):
+    """concatenate terms, LSB first"""
+    parts = []
+    for t in ts:
+        parts += list(_parts(t))
+    return _mkcat(w, parts)
+
+
+def _support_zero(t):
+    """list of (lo, len) ranges of t that are constant zero"""
+    z = []
+    pos = 0
+    for (a, lo, ln) in _parts(t):
+        if a[0] == 'c':
+            v = a[2]
+            # split the constant into zero runs
+            i = 0
+            while i < ln:
+                if (v >> i) & 1 == 0:
+                    j = i
+                    while j < ln and (v >> j) & 1 == 0:
+                        j += 1
+                    z.append((pos + i, j - i))
+                    i = j
+                else:
+                    i += 1
+        pos += ln
+    return z
+
+
+def _disjoint(a, b, w):
+    """can a|b be formed by taking each bit from the operand that is not known-zero there? returns merged term or None"""
+    pa, pb = _parts(a), _parts(b)
+    # walk both part lists in lock step
+    cuts = {0, w}
+    pos = 0
+    for (_, _, ln) in pa:
+        pos += ln
+        cuts.add(pos)
+    pos = 0
+    for (_, _, ln) in pb:
+        pos += ln
+        cuts.add(pos)
+    cuts = sorted(cuts)
+    out = []
+    for s, e in zip(cuts, cuts[1:]):
+        sa = slice_(a, s, e - s)
+        sb = slice_(b, s, e - s)
+        if sa[0] == 'c' and sa[2] == 0:
+            out.append(sb)
+        elif sb[0] == 'c' and sb[2] == 0:
+            out.append(sa)
+        elif sa[0] == 'c' and sb[0] == 'c' and (sa[2] & sb[2]) == 0:
+            out.append(const(e - s, sa[2] | sb[2]))
+        else:
+            return None
+    return cat(w, out)
+
+
+# ------------------------------------------------------------------ constructors
+def _xor(w, args):
+    flat = []
+    c = 0
+    for a in args:
+        if a[0] == 'BitXor':
+            flat += list(a[2:])
+        else:
+            flat.append(a)
+    cnt = {}
+    order = []
+    for a in flat:
+        if a[0] == 'c':
+            c ^= a[2]
+            continue
+        k = id(a)
+        if k not in cnt:
+            cnt[k] = [a, 0]
+            order.append(k)
+        cnt[k][1] ^= 1
+    rest = [cnt[k][0] for k in order if cnt[k][1]]
+    if c:
+        rest.append(const(w, c))
+    if not rest:
+        return const(w, 0)
+    if len(rest) == 1:
+        return rest[0]
+    # try bit-level merge of two disjoint operands (packing halves)
+    if len(rest) == 2:
+        m = _disjoint(rest[0], rest[1], w)
+        if m is not None:
+            return m
+    rest.sort(key=_key)
+    return _i(('BitXor', w) + tuple(rest))
+
+
+def _key(t):
+    """deterministic total order on interned terms (serial number of first construction)"""
+    return _serial.get(id(t), -1)
+
+
+def _lin(w, c, terms):
+    """canonical linear form: const + sum k*t"""
+    acc = {}
+    order = []
+    cc = c & M(w)
+    for (t, k) in terms:
+        k &= M(w)
+        if k == 0:
+            continue
+        if t[0] == 'c':
+            cc = (cc + k * t[2]) & M(w)
+            continue
+        if t[0] == 'lin':
+            cc = (cc + k * t[2]) & M(w)
+            for (t2, k2) in t[3]:
+                kk = id(t2)
+                if kk not in acc:
+                    acc[kk] = [t2, 0]
+                    order.append(kk)
+                acc[kk][1] = (acc[kk][1] + k * k2) & M(w)
+            continue
+        kk = id(t)
+        if kk not in acc:
+            acc[kk] = [t, 0]
+            order.append(kk)
+        acc[kk][1] = (acc[kk][1] + k) & M(w)
+    ts = [(acc[k][0], acc[k][1]) for k in order if acc[k][1]]
+    if not ts:
+        return const(w, cc)
+    if len(ts) == 1 and ts[0][1] == 1 and cc == 0:
+        return ts[0][0]
+    ts.sort(key=lambda x: _key(x[0]))
+    return _i(('lin', w, cc, tuple(ts)))
+
+
+def _strip_amount(r, w):
+    """rotation / shift amounts are taken modulo w (a power of two)"""
+    for _ in range(4):
+        if r is None:
+            return r
+        if r[0] == 'cat':
+            # low log2(w) bits of an atom, zero-extended
+            parts = r[2]
+            lb = w.bit_length() - 1
+            if parts and parts[0][1] == 0 and parts[0][2] >= lb and all(p[0][0] == 'c' and p[0][2] == 0 for p in parts[1:]):
+                r = parts[0][0]
+                continue
+            # keep only the low lb bits when the rest is arbitrary: amount mod w
+            return r
+        if r[0] == 'zext':
+            r = r[2]
+            continue
+        if r[0] == 'BitAnd' and len(r) == 4 and r[3][0] == 'c' and r[3][2] == w - 1:
+            r = r[2]
+            continue
+        if r[0] == 'Rem' and r[3][0] == 'c' and r[3][2] == w:
+            r = r[2]
+            continue
+        break
+    return r
 
 
 def op(name, w, *args):
+    if any(a is None for a in args):
+        return None
+    if name == 'id':
+        return args[0]
+    if name == 'BitXor':
+        return _xor(w, args)
+    if name in ('Add', 'Sub'):
+        a, b = args
+        return _lin(w, 0, [(a, 1), (b, 1 if name == 'Add' else -1)])
+    if name == 'Neg':
+        return _lin(w, 0, [(args[0], -1)])
+    if name == 'Mul':
+        a, b = args
+        if a[0] == 'c' and b[0] == 'c':
+            return const(w, a[2] * b[2])
+        if a[0] == 'c':
+            a, b = b, a
+        if b[0] == 'c':
+            if b[2] == 0:
+                return const(w, 0)
+            if b[2] == 1:
+                return a
+            if b[2] & (b[2] - 1) == 0:
+                return op('Shl', w, a, const(32, b[2].bit_length() - 1))
+            return _lin(w, 0, [(a, b[2])])
+        x, y = sorted((a, b), key=_key)
+        return _i(('Mul', w, x, y))
+    if name == 'Not':
+        a = args[0]
+        if a[0] == 'c':
+            return const(w, ~a[2])
+        if a[0] == 'Not':
+            return a[2]
+        if a[0] == 'cat' and len(a[2]) > 1:
+            return cat(w, [op('Not', ln, slice_(a, pos, ln)) for (pos, ln) in _cuts(a)])
+        return _i(('Not', w, a))
+    if name in ('BitAnd', 'BitOr'):
+        a, b = args
+        if a[0] == 'c' and b[0] == 'c':
+            return const(w, (a[2] & b[2]) if name == 'BitAnd' else (a[2] | b[2]))
+        if a[0] == 'c':
+            a, b = b, a
+        if a is b:
+            return a
+        if b[0] == 'c':
+            mask = b[2]
+            if name == 'BitAnd':
+                if mask == M(w):
+                    return a
+                if mask == 0:
+                    return const(w, 0)
+                # runs of the mask
+                out = []
+                i = 0
+                while i < w:
+                    bit = (mask >> i) & 1
+                    j = i
+                    while j < w and ((mask >> j) & 1) == bit:
+                        j += 1
+                    out.append(slice_(a, i, j - i) if bit else const(j - i, 0))
+                    i = j
+                return cat(w, out)
+            else:
+                if mask == 0:
+                    return a
+                if mask == M(w):
+                    return b
+        if name == 'BitOr':
+            m = _disjoint(a, b, w)
+            if m is not None:
+                return m
+        x, y = sorted((a, b), key=_key)
+        return _i((name, w, x, y))
+    if name in ('Shl', 'Shr'):
+        a, s = args
+        if s[0] == 'c':
+            k = s[2] % w
+            if k == 0:
+                return a
+            if name == 'Shl':
+                return cat(w, [const(k, 0), slice_(a, 0, w - k)])
+            return cat(w, [slice_(a, k, w - k), const(k, 0)])
+        return _i((name, w, a, _strip_amount(s, w)))
+    if name in ('rotl', 'rotr'):
+        a, s = args
+        if s[0] == 'c':
+            k = s[2] % w
+            if name == 'rotr':
+                k = (w - k) % w
+            if k == 0:
+                return a
+            return cat(w, [slice_(a, w - k, k), slice_(a, 0, w - k)])
+        s = _strip_amount(s, w)
+        inv = 'rotr' if name == 'rotl' else 'rotl'
+        if a[0] == inv and a[3] is s:
+            return a[2]
+        return _i((name, w, a, s))
+    if name == 'zext':
+        a = args[0]
+        aw = width(a)
+        if aw == w:
+            return a
+        return cat(w, [a, const(w - aw, 0)])
+    if name == 'trunc':
+        return slice_(args[0], 0, w)
+    if name == 'sext':
+        a = args[0]
+        aw = width(a)
+        if a[0] == 'c':
+            v = a[2]
+            if v >> (aw - 1):
+                v |= M(w) & ~M(aw)
+            return const(w, v)
+        return _i(('sext', w, a))
+    if name == 'byte':
+        a, k = args
+        return slice_(a, 8 * k[2], 8)
+    if name == 'cat':
+        return cat(w, list(args))
+    if name == 'bswap':
+        a = args[0]
+        n = w // 8
+        return cat(w, [slice_(a, 8 * (n - 1 - i), 8) for i in range(n)])
+    if name in ('Eq', 'Ne'):
+        a, b = args
+        if a is b:
+            return const(8, 1 if name == 'Eq' else 0)
+        if a[0] == 'c' and b[0] == 'c':
+            return const(8, int((a[2] == b[2]) == (name == 'Eq')))
+        x, y = sorted((a, b), key=_key)
+        return _i((name, 8, x, y))
+    if name in ('Lt', 'Le', 'Gt', 'Ge'):
+        a, b = args
+        if a is b:
+            return const(8, 1 if name in ('Le', 'Ge') else 0)
+        return _i((name, 8, a, b))
+    if name in ('Div', 'Rem'):
+        a, b = args
+        if a[0] == 'c' and b[0] == 'c' and b[2]:
+            return const(w, a[2] // b[2] if name == 'Div' else a[2] % b[2])
+        if name == 'Rem' and b[0] == 'c' and b[2] and b[2] & (b[2] - 1) == 0:
+            k = b[2].bit_length() - 1
+            return cat(w, [slice_(a, 0, k), const(w - k, 0)])
+        if name == 'Div' and b[0] == 'c' and b[2] and b[2] & (b[2] - 1) == 0:
+            return op('Shr', w, a, const(32, b[2].bit_length() - 1))
+        return _i((name, w, a, b))
+    # opaque function symbol (intrinsics, summarised callees)
+    inv = INVERSES.get(name)
+    if inv is not None and len(args) == 2 and args[1][0] == inv and len(args[1]) == 4 and args[1][2] is args[0]:
+        return args[1][3]          # f^-1(k, f(k, x)) = x for a declared inverse pair on the same key object
+    return _i((name, w) + tuple(args))
+
+
+def _cuts(t):
+    pos = 0
+    out = []
+    for (_, _, ln) in _parts(t):
+        out.append((pos, ln))
+        pos += ln
+    return out
+
+
+# ------------------------------------------------------------------ printing
+def show(t, depth=0, limit=6):
+    if t is None:
+        return '?'
+    if depth > limit:
+        return '...'
+    k = t[0]
+    if k == 'c':
+        return '%#x:%d' % (t[2], t[1])
+    if k == 's':
+        return t[1]
+    if k == 'cat':
+        return '{' + ', '.join('%s[%d+:%d]' % (show(a, depth + 1, limit), lo, ln) if not (lo == 0 and ln == width(a)) else show(a, depth + 1, limit)
+                               for (a, lo, ln) in t[2]) + '}'
+    if k == 'lin':
+        s = ' + '.join(('%s' % show(x, depth + 1, limit)) if c == 1 else '%#x*%s' % (c, show(x, depth + 1, limit)) for x, c in t[3])
+        return '(%s%s)' % (s, ' + %#x' % t[2] if t[2] else '')
+    return '%s(%s)' % (k, ', '.join(show(a, depth + 1, limit) if isinstance(a, tuple) else str(a) for a in t[2:]))
+
+
+def size(t, seen=None):
+    if seen is None:
+        seen = set()
+    if not isinstance(t, tuple) or id(t) in seen:
+        return 0
+    seen.add(id(t))
+    n = 1
+    if t[0] == 'cat':
+        for (a, _, _) in t[2]:
+            n += size(a, seen)
+    elif t[0] == 'lin':
+        for (a, _) in t[3]:
+            n += size(a, seen)
+    elif t[0] not in ('c', 's'):
+        for a in t[2:]:
+            n += size(a, seen)
+    return n
+
+
+def first_diff(a, b, depth=0):
+    """a human-readable location of the first difference between two terms"""
+    if a is b:
+        return None
+    if a is None or b is None:
+        return 'one side has no term (lost at a join or an unmodelled operation)'
+    if a[0] != b[0] or width(a) != width(b) or depth > 12:
+        return '%s  vs  %s' % (show(a, 0, 3), show(b, 0, 3))
+    if a[0] == 'cat':
+        if len(a[2]) != len(b[2]):
+            return '%s  vs  %s' % (show(a, 0, 3), show(b, 0, 3))
+        for (x, xl, xn), (y, yl, yn) in zip(a[2], b[2]):
+            if x is not y or xl != yl or xn != yn:
+                d = first_diff(x, y, depth + 1)
+                return d or '%s[%d+:%d] vs %s[%d+:%d]' % (show(x, 0, 2), xl, xn, show(y, 0, 2), yl, yn)
+    if a[0] == 'lin':
+        if a[2] != b[2] or len(a[3]) != len(b[3]):
+            return '%s  vs  %s' % (show(a, 0, 3), show(b, 0, 3))
+        for (x, xc), (y, yc) in zip(a[3], b[3]):
+            if x is not y or xc != yc:
+                return first_diff(x, y, depth + 1) or 'coefficients %#x vs %#x' % (xc, yc)
+    if a[0] in ('c', 's'):
+        return '%s  vs  %s' % (show(a), show(b))
+    if len(a) != len(b):
+        return '%s  vs  %s' % (show(a, 0, 3), show(b, 0, 3))
+    for x, y in zip(a[2:], b[2:]):
+        if x is not y:
+            if isinstance(x, tuple) and isinstance(y, tuple):
+                return first_diff(x, y, depth + 1)
+            return '%s vs %s' % (x, y)
     return None
